@@ -88,8 +88,9 @@ func rotPayload(kind string, n int) (*Rot, int) {
 	if kind == "typednil" {
 		return nil, 0 // a typed nil pointer in the payload interface: a rotation payload that rotates nothing
 	}
-	if kind == "byvalue" {
-		kind = "all" // the same components in a RotV handed over by value (rotPayloadValue)
+	switch kind {
+	case "byvalue", "both", "bothv", "botht":
+		kind = "all" // the same components in another payload type (rotPayloadValue)
 	}
 	r := &Rot{}
 	w := 0
@@ -109,8 +110,15 @@ func rotPayload(kind string, n int) (*Rot, int) {
 // the payload object of a rotation: *Rot, a typed nil *Rot, or a RotV by value (RotateWrapper through value receivers)
 func rotPayloadValue(kind string, n int) interface{} {
 	r, _ := rotPayload(kind, n)
-	if kind == "byvalue" {
+	switch kind {
+	case "byvalue":
 		return RotV{W: r.W, Salt: r.Salt, Info: r.Info}
+	case "both": // RotateWrapper AND EventWrapperInfo
+		return &RotEwi{W: r.W, Salt: r.Salt, Info: r.Info, ID: "ev1"}
+	case "bothv": // ... through value receivers, by value
+		return RotEwiV{W: r.W, Salt: r.Salt, Info: r.Info, ID: "ev2"}
+	case "botht": // ... and Taggable
+		return &RotEwiT{RotEwi: RotEwi{W: r.W, Salt: r.Salt, Info: r.Info, ID: "ev3"}, Sec: "a rotation payload is never forwarded"}
 	}
 	return r
 }
@@ -439,7 +447,7 @@ func execCase(c Case) (res result) {
 			f.Rotate(encrypt.WithWrapper(newAead(name)))
 			hs.keyName, hs.keyID = name, h.Rot
 		}
-		step := Case{ID: c.ID, Gen: c.Gen, Cfg: h.Cfg, PK: h.PK, V: h.V}
+		step := Case{ID: c.ID, Gen: c.Gen, Cfg: h.Cfg, PK: h.PK, V: h.V, SnapOnly: c.SnapOnly && i == c.Step}
 		hs.feed = h.Feed
 		hs.keepOut = i+1 < len(c.Hist) && c.Hist[i+1].Feed == 1
 		fx := f
@@ -595,7 +603,7 @@ func execOn(f *encrypt.Filter, hs *hstate, c Case, n int) (res result) {
 		} else {
 			res.outLit = "(VOther 0%Z)" // a nil or rotation payload came back in a new event: only the outcome class matters
 		}
-		sameType := reflect.TypeOf(out.Payload) == reflect.TypeOf(pv)
+		sameType := reflect.TypeOf(out.Payload) == reflect.TypeOf(pv) && sameContainerTypes(reflect.ValueOf(pv), reflect.ValueOf(out.Payload), 0)
 		meta := out.Type == e.Type && out.CreatedAt.Equal(e.CreatedAt) && reflect.DeepEqual(out.Formatted, e.Formatted)
 		var found []int
 		if js, jerr := json.Marshal(out.Payload); jerr == nil {
@@ -745,6 +753,121 @@ func probeNilElement() (ok bool) {
 	return true
 }
 
+// The dynamic type of every CONTAINER position (struct, pointer, map, slice, array - whatever an interface holds there) of the
+// forwarded payload is the input's: a struct held by value in a []interface{} must not come back as a pointer to it.  Leaves
+// are not compared (a value a pointer tag names is replaced by the filtered STRING, whatever it was).
+func isContainerKind(k reflect.Kind) bool {
+	return k == reflect.Struct || k == reflect.Ptr || k == reflect.Map || k == reflect.Slice || k == reflect.Array
+}
+
+func sameContainerTypes(a, b reflect.Value, depth int) (same bool) {
+	defer func() {
+		if recover() != nil {
+			same = true
+		}
+	}()
+	for a.IsValid() && a.Kind() == reflect.Interface {
+		a = a.Elem()
+	}
+	for b.IsValid() && b.Kind() == reflect.Interface {
+		b = b.Elem()
+	}
+	if !a.IsValid() || !b.IsValid() || depth > 14 || !isContainerKind(a.Kind()) || !isContainerKind(b.Kind()) {
+		return true
+	}
+	if a.Type() == tBytes || b.Type() == tBytes {
+		return true
+	}
+	if a.Type() != b.Type() {
+		return false
+	}
+	switch a.Kind() {
+	case reflect.Ptr:
+		if a.IsNil() || b.IsNil() {
+			return true
+		}
+		return sameContainerTypes(a.Elem(), b.Elem(), depth+1)
+	case reflect.Struct:
+		for i := 0; i < a.NumField(); i++ {
+			if a.Type().Field(i).PkgPath == "" && !sameContainerTypes(a.Field(i), b.Field(i), depth+1) {
+				return false
+			}
+		}
+	case reflect.Slice, reflect.Array:
+		for i := 0; i < a.Len() && i < b.Len(); i++ {
+			if !sameContainerTypes(a.Index(i), b.Index(i), depth+1) {
+				return false
+			}
+		}
+	case reflect.Map:
+		for _, k := range a.MapKeys() {
+			if bv := b.MapIndex(k); bv.IsValid() && !sameContainerTypes(a.MapIndex(k), bv, depth+1) {
+				return false
+			}
+		}
+	}
+	return true
+}
+
+// Does the tree under test filter a struct held BY VALUE in a []interface{} that is a map value (through a settable copy, as it does
+// for a struct by value in a map)?  Where it does, such elements run under the full model; where it leaves them alone they are
+// outside the model (input-side oracles and the container-type comparison only).
+var structInSliceOK = false
+
+type probeS struct {
+	Sec string `class:"secret"`
+}
+
+func probeStructInSlice() (ok bool) {
+	defer func() {
+		if recover() != nil {
+			ok = false
+		}
+	}()
+	f := mkFilter(Cfg{Wrap: "ok"})
+	out, err := f.Process(context.Background(), &el.Event{Type: "t", CreatedAt: fixedTime, Payload: map[string]interface{}{"k1": []interface{}{probeS{Sec: "plain"}}}})
+	if err != nil || out == nil {
+		return false
+	}
+	switch x := out.Payload.(map[string]interface{})["k1"].([]interface{})[0].(type) {
+	case probeS:
+		return x.Sec != "plain"
+	case *probeS:
+		return x.Sec != "plain"
+	}
+	return false
+}
+
+// a struct by value among the elements of a []interface{}
+func hasStructInISlice(v *V) bool {
+	if v == nil {
+		return false
+	}
+	if v.K == "islice" {
+		for _, x := range v.Elems {
+			if x.K == "struct" || x.K == "hand" {
+				return true
+			}
+		}
+	}
+	for _, f := range v.Fields {
+		if hasStructInISlice(f.V) {
+			return true
+		}
+	}
+	for _, x := range v.Elems {
+		if hasStructInISlice(x) {
+			return true
+		}
+	}
+	for _, x := range v.Vals {
+		if hasStructInISlice(x) {
+			return true
+		}
+	}
+	return hasStructInISlice(v.Elem)
+}
+
 func hasNilIf(v *V) bool {
 	if v == nil {
 		return false
@@ -780,6 +903,10 @@ func (e *emitter) emit(c Case) {
 			e.stats["held-back:nil-element-F18"]++
 			return
 		}
+	}
+	if !structInSliceOK && (hasStructInISlice(c.V) || len(c.Hist) > 0 && hasStructInISlice(c.Hist[c.Step].V)) {
+		c.SnapOnly = true
+		e.stats["outside-the-model:struct-by-value-in-interface-slice"]++
 	}
 	e.n++
 	c.ID = e.n
@@ -874,7 +1001,7 @@ func genHistories(e *emitter, r *hc.Rand, n int) {
 			}
 			if i > 0 && g.r.Chance(1, 5) {
 				// a rotation payload carrying only some of wrapper / salt / info: consumed, and the later events show what it installed
-				st = HistStep{Cfg: c, PK: "rotate", V: &V{K: []string{"all", "salt", "info", "wrapper", "empty", "typednil", "byvalue"}[g.r.Intn(7)]}}
+				st = HistStep{Cfg: c, PK: "rotate", V: &V{K: []string{"all", "salt", "info", "wrapper", "empty", "typednil", "byvalue", "both", "bothv", "botht"}[g.r.Intn(10)]}}
 			} else if len(h) > 0 && h[len(h)-1].PK == "val" && h[len(h)-1].Feed == 0 && g.r.Chance(1, 6) {
 				// the very payload object of the previous event once more
 				st = HistStep{Cfg: c, PK: "val", V: h[len(h)-1].V, Again: true, Rot: st.Rot}
@@ -1002,7 +1129,7 @@ func genSpecial(e *emitter) {
 			return &V{K: "struct", Fields: []Field{{Name: "F1", Tag: sp("secret"), V: &V{K: "str", C: g.can()}}, {Name: "F2", Tag: sp("sensitive"), V: &V{K: "str", C: g.can()}}, {Name: "F3", V: &V{K: "int", I: 3}}}}
 		}
 		e.emit(Case{Gen: "special", Cfg: cf, PK: "nil"})
-		for _, k := range []string{"all", "salt", "info", "wrapper", "empty", "typednil", "byvalue"} {
+		for _, k := range []string{"all", "salt", "info", "wrapper", "empty", "typednil", "byvalue", "both", "bothv", "botht"} {
 			e.emit(Case{Gen: "special", Cfg: cf, PK: "rotate", V: &V{K: k}})
 		}
 		// a typed nil pointer to a payload type with wrapper info: it still implements the interface, with an empty event id
@@ -1160,6 +1287,7 @@ func main() {
 	}
 	e := &emitter{cf: cf, side: side, stats: map[string]int{}, seen: map[string]bool{}}
 	nilElemsOK = probeNilElement()
+	structInSliceOK = probeStructInSlice()
 	r := hc.NewRand(hc.Seed())
 	if *corpus != "" {
 		runCorpus(e, *corpus)
@@ -1203,6 +1331,7 @@ func main() {
 	summary["panics"] = e.panics
 	summary["seed"] = hc.Seed()
 	summary["nil_element_in_a_slice_held_by_a_map"] = map[bool]string{true: "handled", false: "Process PANICS (F18; repair: patches/encrypt/0009): the cases with such an element were held back"}[nilElemsOK]
+	summary["struct_by_value_in_a_slice_of_interfaces_held_by_a_map"] = map[bool]string{true: "filtered (full model)", false: "left alone by the tree under test: outside the model (input-side oracles + container types)"}[structInSliceOK]
 	js, _ := json.MarshalIndent(summary, "", " ")
 	os.WriteFile(*out+"/"+*prefix+"_summary.json", js, 0o644)
 	fmt.Printf("encrypth: %d cases in %d files, %d panics\n", cf.Total, len(cf.Files), len(e.panics))
